@@ -43,6 +43,25 @@ def _dc_root(prog, i):
     return None
 
 
+def inst_has_dict(prog, i) -> bool:
+    """do instances of class i (after decoration, on a correct slotted()) have a __dict__?  Conservative: True only
+    when certain.  Non-field instance state (__post_init__ extras, cached_property) is only generated then, because
+    without a __dict__ it cannot exist at all -- that is what slots mean, not a difference the property is about."""
+    s = prog[i]
+    if not s["slot"] or not s["dataclass"]:
+        return True                      # never slotted (a failed decoration leaves the plain class)
+    if s.get("reslot"):
+        return False
+    if s["dict"] and not s["bare"]:
+        return True
+    b = s["base"]
+    if b == "PU":
+        return True
+    if isinstance(b, int):
+        return inst_has_dict(prog, b)
+    return False
+
+
 def gen_spec(rng: random.Random, prog: list, malformed: float = 0.06, names=NAME_POOL) -> dict:
     i = len(prog)
     s = {"name": rng.choice(names), "outer": rng.choice([None, None, "H0"]),
@@ -50,7 +69,7 @@ def gen_spec(rng: random.Random, prog: list, malformed: float = 0.06, names=NAME
          "hooks": rng.choices(["none", "pair", "get", "set"], [6, 3, 1, 1])[0],
          "classvar": rng.random() < 0.3, "method": rng.random() < 0.3, "super_repr": rng.random() < 0.04,
          "dict": rng.random() < 0.5, "weakref": rng.random() < 0.5, "bare": rng.random() < 0.15,
-         "reslot": False}
+         "reslot": False, "post_init": rng.random() < 0.3, "cached": rng.random() < 0.2}
     # base: none / earlier class / plain non-dataclass bases
     r = rng.random()
     if prog and r < 0.55:
@@ -115,7 +134,7 @@ def gen_program(rng: random.Random, nmax: int = 4, malformed: float = 0.06) -> l
 
 HOOK = None      # set by the caller before a program's module is executed
 
-PRELUDE = '''import dataclasses, typing
+PRELUDE = '''import dataclasses, functools, typing
 import c19_gen as _g
 def _hook(i, c, bare, kw):
     return _g.HOOK(i, c, bare, kw)
@@ -145,8 +164,9 @@ def default_expr(k: int, d: str) -> str:
     return ""
 
 
-def class_source(i: int, s: dict) -> str:
+def class_source(i: int, s: dict, prog: list | None = None) -> str:
     base = s["base"]
+    extra_state = prog is not None and inst_has_dict(prog, i)
     bexpr = "" if base is None else (f"(_c[{base}])" if isinstance(base, int) else f"({base})")
     lines = []
     ind = "    "
@@ -171,6 +191,11 @@ def class_source(i: int, s: dict) -> str:
         body.append("cv: typing.ClassVar[int] = 7")
     if s["method"]:
         body.append("def total(self):\n    return [getattr(self, f.name) for f in dataclasses.fields(self)]")
+    if extra_state and s.get("post_init"):
+        # the usual frozen-dataclass idiom for derived state
+        body.append("def __post_init__(self):\n    object.__setattr__(self, '_derived', ['derived', len(dataclasses.fields(self))])")
+    if extra_state and s.get("cached"):
+        body.append("@functools.cached_property\ndef cp(self):\n    return ['cp', len(dataclasses.fields(self))]")
     if s["super_repr"]:
         body.append("def __repr__(self):\n    return 'R:' + str(super().__eq__(self))")
     if s["hooks"] in ("pair", "get"):
@@ -200,7 +225,7 @@ def class_source(i: int, s: dict) -> str:
 
 
 def program_source(prog: list) -> str:
-    return PRELUDE + "".join(class_source(i, s) for i, s in enumerate(prog))
+    return PRELUDE + "".join(class_source(i, s, prog) for i, s in enumerate(prog))
 
 
 # ----------------------------------------------------------------------------------
@@ -211,6 +236,7 @@ def _mk(name, **kw):
     s = {"name": name, "outer": None, "dataclass": True, "slot": True, "hooks": "none", "classvar": False,
          "method": False, "super_repr": False, "dict": False, "weakref": True, "bare": False, "base": None,
          "frozen": False, "eq": True, "order": False, "unsafe_hash": False, "reslot": False,
+         "post_init": False, "cached": False,
          "fields": [{"name": "a", "def": "none"}, {"name": "b", "def": "default"}]}
     s.update(kw)
     return s
@@ -225,6 +251,8 @@ def catalogue(names=("K0", "K1")):
         dict(dataclass=False, fields=[]),                   # not a dataclass: legitimately raises TypeError
         dict(slot=False),                                   # stays unslotted (a base for the next one)
         dict(frozen=True, hooks="pair", dict=True),         # user hooks
+        dict(frozen=True, dict=True, weakref=False, post_init=True, cached=True),   # non-field instance state
+        dict(frozen=True, weakref=True, post_init=True),    # ... only when chained to a base with a __dict__
     ]
     return [_mk(n, **sh) for n in names for sh in shapes]
 
